@@ -20,6 +20,7 @@ type modelFile struct {
 	Harness string           `json:"harness"`
 	Model   map[string]int64 `json:"model"`
 	Chooses map[string]int   `json:"chooses"`
+	Params  map[string]int   `json:"params"`
 }
 
 var (
@@ -84,6 +85,9 @@ func Byte(name string, lo, hi byte) byte {
 	return v
 }
 
+// Param returns a tier parameter of the harness (0 if unset).
+func Param(name string) int { return model.Params[name] }
+
 func Choose(name string, n int) int {
 	c, ok := model.Chooses[name]
 	if !ok || c >= n {
@@ -106,6 +110,35 @@ func Assert(c bool, id string) {
 		fmt.Printf("VERIF-ASSERT-FAIL %s\n", id)
 		os.Exit(91)
 	}
+}
+
+// Once runs f (a concrete, deterministic computation); the engine runs it
+// once per cell and reuses the result.
+func Once(key string, f func() any) any { return f() }
+
+// Or and And combine conditions without short-circuit evaluation (no path
+// fork under the engine).
+func Or(c ...bool) bool {
+	r := false
+	for _, x := range c {
+		r = r || x
+	}
+	return r
+}
+
+func And(c ...bool) bool {
+	r := true
+	for _, x := range c {
+		r = r && x
+	}
+	return r
+}
+
+func Abs64(v int64) int64 {
+	if v < 0 {
+		return -v
+	}
+	return v
 }
 
 func Reach(id string)        {}
